@@ -21,9 +21,8 @@ import io
 import json
 import os
 import sys
-import zlib
 
-from ..core import Run, pmap, chunked
+from ..core import Run, ToolError, pmap, chunked
 from ..cohdl_util import compile_source
 from ..gen import c10_common as cm
 from ..gen import c10_probe
@@ -34,45 +33,16 @@ MAX_RECORDED = 60  # replay files written per run (further violations are only c
 
 
 # ---------------------------------------------------------------------------------------------
-# families
+# families: every generator module offers tasks(thorough, seed) -> small picklable work-unit descriptors and
+# expand(descriptor) -> iterator of cases; the (possibly millions of) cases are only materialised inside workers
 # ---------------------------------------------------------------------------------------------
-def family_cases(fam, run: Run):
-    thorough = run.thorough
-    if fam == "sig":
-        from ..gen import c10_sig as g
-
-        if thorough:
-            yield from g.cases(3, g.PLACEMENTS_BASE + g.PLACEMENTS_EXTRA)
-            yield from g.cases(2, g.PLACEMENTS_BASE, dup_shapes=True)
-        else:
-            yield from g.cases(3, ("def",))
-            yield from g.cases(2, g.PLACEMENTS_BASE[1:])
-            yield from g.cases(1, ("def", "method"), dup_shapes=True)
-    elif fam == "ops":
-        from ..gen import c10_ops as g
-
-        yield from g.cases(thorough)
-    elif fam == "cls":
-        from ..gen import c10_cls as g
-
-        yield from g.cases(thorough)
-    elif fam == "clo":
-        from ..gen import c10_clo as g
-
-        yield from g.cases(thorough)
-    elif fam == "expr":
-        from ..gen import c10_expr as g
-
-        yield from g.cases(thorough)
-    elif fam == "stmt":
-        from ..gen import c10_stmt as g
-
-        yield from g.cases(thorough)
-    else:
-        raise ValueError(fam)
-
-
 FAMILIES = ("sig", "ops", "cls", "clo", "expr", "stmt")
+
+
+def _gen(fam):
+    import importlib
+
+    return importlib.import_module(f"verif.gen.c10_{fam}")
 
 
 # ---------------------------------------------------------------------------------------------
@@ -121,7 +91,32 @@ def judge(c, ref, ok, vals, err):
     return "match", None
 
 
-def work(task):
+CHUNK = 96
+
+
+def work(desc):
+    """desc: a work-unit descriptor of one family (or, for tests, a list of cases)."""
+    cases = desc if isinstance(desc, list) else _gen(desc[0]).expand(desc)
+    total = {"cnt": {}, "viol": [], "samples": [], "rej": {}}
+    keys = set()
+    for part in chunked(cases, CHUNK):
+        for c in part:
+            if c["key"] in keys:
+                raise ToolError(f"duplicate case key {c['key']}")
+            keys.add(c["key"])
+        r = work_chunk(part)
+        for k, v in r["cnt"].items():
+            total["cnt"][k] = total["cnt"].get(k, 0) + v
+        for k, v in r["rej"].items():
+            total["rej"][k] = total["rej"].get(k, 0) + v
+        total["viol"].extend(r["viol"])
+        if len(total["samples"]) < 2:
+            total["samples"].extend(r["samples"])
+    _drop_definition_cache()
+    return total
+
+
+def work_chunk(task):
     """task: list of cases.  Returns counters + violations + samples."""
     cnt = {}
 
@@ -184,7 +179,6 @@ def work(task):
         ok1, got1, err1, _ = compile_cases([(idx, c)])
         count("compiles")
         record(idx, c, ok1, got1.get(idx, []), err1)
-    _drop_definition_cache()
     return {"cnt": cnt, "viol": viol, "samples": samples, "rej": rejected_kinds}
 
 
@@ -216,26 +210,11 @@ def confirm(v):
 
 def main(run: Run):
     fams = [f for f in FAMILIES if not getattr(run, "only", None) or f in run.only]
-    seen = set()
-    dup = 0
     tasks = []
-    per_task = 96
     for fam in fams:
-        buf = []
-        for c in family_cases(fam, run):
-            h = zlib.crc32(c["key"].encode()) | (len(c["key"]) << 32)
-            if h in seen:
-                dup += 1
-            seen.add(h)
-            buf.append(c)
-            if len(buf) >= per_task:
-                tasks.append(buf)
-                buf = []
-        if buf:
-            tasks.append(buf)
-    if dup:
-        run.note(f"{dup} key hash collisions/duplicates among generated cases")
-    run.count("generated", len(seen) + dup)
+        tasks.extend(_gen(fam).tasks(run.thorough, run.seed))
+    # biggest units first would need their sizes; a fixed interleaving is enough to keep 16 workers busy
+    run.count("work_units", len(tasks))
     rej_kinds = {}
     known_inst = {}
     dump = open(os.environ["C10_DUMP"], "w") if os.environ.get("C10_DUMP") else None  # development aid
@@ -293,7 +272,7 @@ def main(run: Run):
         rule="complete enumeration of each family's grammar up to the tier's bound (see module docstrings of "
              "verif/gen/c10_*.py); a case is non-trivial when an actual comparison took place: CPython produced a value "
              "and cohdl accepted (values compared structurally), or CPython raised an argument-binding TypeError "
-             "(cohdl must reject).  All case keys are distinct (checked).",
+             "(cohdl must reject).  Case keys encode the complete input and are checked to be distinct within every work unit.",
         evaluations=c.get("cases", 0),
         distinct_nontrivial=compared,
         rejected_by_cohdl=c.get("rejected", 0),
